@@ -32,7 +32,7 @@ func init() {
 		Floor:         c18Kinds,
 		MinNontrivial: 100,
 		Phases: []fw.Phase{
-			{Name: "fn", N: func(t fw.Tier) int { return pick(t, 8000, 800000) }, Run: c18Run},
+			{Name: "fn", N: func(t fw.Tier) int { return pick(t, 30000, 1000000) }, Run: c18Run},
 		},
 		Witness: sqlWitness,
 	})
